@@ -478,7 +478,8 @@ def predicates(job):
 def layer_search(job):
     """job = (n, P codes (m of them, sign ignored), graph id)"""
     import numpy as np
-    n, P, g = job
+    n, P, g = job[0], job[1], job[2]
+    witness = job[3] if len(job) > 3 else []
     lib = L()
     fl = lib.find_local_clifford_layer
     m = len(P)
@@ -488,7 +489,7 @@ def layer_search(job):
         for q in range(n):
             R[q, j] = (c >> q) & 1
             S[q, j] = (c >> (8 + q)) & 1
-    rec = {"op": "layer", "n": n, "P": [c % impl.W2 for c in P], "g": g, "res": "none", "blocks": [], "offdiag": 0, "gates": [], "circ": 0, "exc": ""}
+    rec = {"op": "layer", "n": n, "P": [c % impl.W2 for c in P], "g": g, "res": "none", "blocks": [], "offdiag": 0, "gates": [], "circ": 0, "exc": "", "witness": witness}
     graph = lib.graph.Graph.decompress(n, g)
     Rb, Sb = R.copy(), S.copy()
     try:
